@@ -1,3 +1,9 @@
+Generated/MacroShapes.vo Generated/MacroShapes.glob Generated/MacroShapes.v.beautified Generated/MacroShapes.required_vo: Generated/MacroShapes.v 
+Generated/MacroShapes.vio: Generated/MacroShapes.v 
+Generated/MacroShapes.vos Generated/MacroShapes.vok Generated/MacroShapes.required_vos: Generated/MacroShapes.v 
+Model/Macro.vo Model/Macro.glob Model/Macro.v.beautified Model/Macro.required_vo: Model/Macro.v Generated/MacroShapes.vo
+Model/Macro.vio: Model/Macro.v Generated/MacroShapes.vio
+Model/Macro.vos Model/Macro.vok Model/Macro.required_vos: Model/Macro.v Generated/MacroShapes.vos
 Model/Types.vo Model/Types.glob Model/Types.v.beautified Model/Types.required_vo: Model/Types.v 
 Model/Types.vio: Model/Types.v 
 Model/Types.vos Model/Types.vok Model/Types.required_vos: Model/Types.v 
@@ -19,12 +25,18 @@ Model/Codec.vos Model/Codec.vok Model/Codec.required_vos: Model/Codec.v Model/Ty
 Model/Rng.vo Model/Rng.glob Model/Rng.v.beautified Model/Rng.required_vo: Model/Rng.v Model/Types.vo
 Model/Rng.vio: Model/Rng.v Model/Types.vio
 Model/Rng.vos Model/Rng.vok Model/Rng.required_vos: Model/Rng.v Model/Types.vos
+Model/Float.vo Model/Float.glob Model/Float.v.beautified Model/Float.required_vo: Model/Float.v 
+Model/Float.vio: Model/Float.v 
+Model/Float.vos Model/Float.vok Model/Float.required_vos: Model/Float.v 
 Model/Env.vo Model/Env.glob Model/Env.v.beautified Model/Env.required_vo: Model/Env.v Model/Types.vo Model/Map.vo Model/Side.vo Model/Book.vo Model/Obs.vo Model/Rng.vo
 Model/Env.vio: Model/Env.v Model/Types.vio Model/Map.vio Model/Side.vio Model/Book.vio Model/Obs.vio Model/Rng.vio
 Model/Env.vos Model/Env.vok Model/Env.required_vos: Model/Env.v Model/Types.vos Model/Map.vos Model/Side.vos Model/Book.vos Model/Obs.vos Model/Rng.vos
 Model/EnvObs.vo Model/EnvObs.glob Model/EnvObs.v.beautified Model/EnvObs.required_vo: Model/EnvObs.v Model/Types.vo Model/Book.vo Model/Obs.vo Model/Codec.vo Model/Rng.vo Model/Env.vo
 Model/EnvObs.vio: Model/EnvObs.v Model/Types.vio Model/Book.vio Model/Obs.vio Model/Codec.vio Model/Rng.vio Model/Env.vio
 Model/EnvObs.vos Model/EnvObs.vok Model/EnvObs.required_vos: Model/EnvObs.v Model/Types.vos Model/Book.vos Model/Obs.vos Model/Codec.vos Model/Rng.vos Model/Env.vos
+Model/Agents.vo Model/Agents.glob Model/Agents.v.beautified Model/Agents.required_vo: Model/Agents.v Model/Types.vo Model/Side.vo Model/Book.vo Model/Obs.vo Model/Rng.vo Model/Float.vo Model/Env.vo
+Model/Agents.vio: Model/Agents.v Model/Types.vio Model/Side.vio Model/Book.vio Model/Obs.vio Model/Rng.vio Model/Float.vio Model/Env.vio
+Model/Agents.vos Model/Agents.vok Model/Agents.required_vos: Model/Agents.v Model/Types.vos Model/Side.vos Model/Book.vos Model/Obs.vos Model/Rng.vos Model/Float.vos Model/Env.vos
 Spec/RefBook.vo Spec/RefBook.glob Spec/RefBook.v.beautified Spec/RefBook.required_vo: Spec/RefBook.v Model/Types.vo Model/Book.vo Model/Obs.vo
 Spec/RefBook.vio: Spec/RefBook.v Model/Types.vio Model/Book.vio Model/Obs.vio
 Spec/RefBook.vos Spec/RefBook.vok Spec/RefBook.required_vos: Spec/RefBook.v Model/Types.vos Model/Book.vos Model/Obs.vos
@@ -34,9 +46,9 @@ Spec/Monitors.vos Spec/Monitors.vok Spec/Monitors.required_vos: Spec/Monitors.v 
 Spec/Runner.vo Spec/Runner.glob Spec/Runner.v.beautified Spec/Runner.required_vo: Spec/Runner.v Model/Types.vo Model/Book.vo Model/Obs.vo Model/Codec.vo Spec/RefBook.vo Spec/Monitors.vo
 Spec/Runner.vio: Spec/Runner.v Model/Types.vio Model/Book.vio Model/Obs.vio Model/Codec.vio Spec/RefBook.vio Spec/Monitors.vio
 Spec/Runner.vos Spec/Runner.vok Spec/Runner.required_vos: Spec/Runner.v Model/Types.vos Model/Book.vos Model/Obs.vos Model/Codec.vos Spec/RefBook.vos Spec/Monitors.vos
-Spec/EnvRunner.vo Spec/EnvRunner.glob Spec/EnvRunner.v.beautified Spec/EnvRunner.required_vo: Spec/EnvRunner.v Model/Types.vo Model/Book.vo Model/Obs.vo Model/Codec.vo Model/Rng.vo Model/Env.vo Model/EnvObs.vo Spec/RefBook.vo Spec/Monitors.vo Spec/Runner.vo
-Spec/EnvRunner.vio: Spec/EnvRunner.v Model/Types.vio Model/Book.vio Model/Obs.vio Model/Codec.vio Model/Rng.vio Model/Env.vio Model/EnvObs.vio Spec/RefBook.vio Spec/Monitors.vio Spec/Runner.vio
-Spec/EnvRunner.vos Spec/EnvRunner.vok Spec/EnvRunner.required_vos: Spec/EnvRunner.v Model/Types.vos Model/Book.vos Model/Obs.vos Model/Codec.vos Model/Rng.vos Model/Env.vos Model/EnvObs.vos Spec/RefBook.vos Spec/Monitors.vos Spec/Runner.vos
+Spec/EnvRunner.vo Spec/EnvRunner.glob Spec/EnvRunner.v.beautified Spec/EnvRunner.required_vo: Spec/EnvRunner.v Model/Types.vo Model/Book.vo Model/Obs.vo Model/Codec.vo Model/Rng.vo Model/Float.vo Model/Env.vo Model/EnvObs.vo Model/Agents.vo Spec/RefBook.vo Spec/Monitors.vo Spec/Runner.vo
+Spec/EnvRunner.vio: Spec/EnvRunner.v Model/Types.vio Model/Book.vio Model/Obs.vio Model/Codec.vio Model/Rng.vio Model/Float.vio Model/Env.vio Model/EnvObs.vio Model/Agents.vio Spec/RefBook.vio Spec/Monitors.vio Spec/Runner.vio
+Spec/EnvRunner.vos Spec/EnvRunner.vok Spec/EnvRunner.required_vos: Spec/EnvRunner.v Model/Types.vos Model/Book.vos Model/Obs.vos Model/Codec.vos Model/Rng.vos Model/Float.vos Model/Env.vos Model/EnvObs.vos Model/Agents.vos Spec/RefBook.vos Spec/Monitors.vos Spec/Runner.vos
 Proofs/Basic.vo Proofs/Basic.glob Proofs/Basic.v.beautified Proofs/Basic.required_vo: Proofs/Basic.v Model/Types.vo Model/Map.vo Model/Side.vo Model/Book.vo
 Proofs/Basic.vio: Proofs/Basic.v Model/Types.vio Model/Map.vio Model/Side.vio Model/Book.vio
 Proofs/Basic.vos Proofs/Basic.vok Proofs/Basic.required_vos: Proofs/Basic.v Model/Types.vos Model/Map.vos Model/Side.vos Model/Book.vos
@@ -82,3 +94,18 @@ Properties/C14.vos Properties/C14.vok Properties/C14.required_vos: Properties/C1
 Properties/C15.vo Properties/C15.glob Properties/C15.v.beautified Properties/C15.required_vo: Properties/C15.v Model/Types.vo Model/Rng.vo Model/Env.vo Proofs/EnvProps.vo
 Properties/C15.vio: Properties/C15.v Model/Types.vio Model/Rng.vio Model/Env.vio Proofs/EnvProps.vio
 Properties/C15.vos Properties/C15.vok Properties/C15.required_vos: Properties/C15.v Model/Types.vos Model/Rng.vos Model/Env.vos Proofs/EnvProps.vos
+Proofs/AgentProps.vo Proofs/AgentProps.glob Proofs/AgentProps.v.beautified Proofs/AgentProps.required_vo: Proofs/AgentProps.v Model/Types.vo Model/Side.vo Model/Book.vo Model/Obs.vo Model/Rng.vo Model/Float.vo Model/Env.vo Model/Agents.vo
+Proofs/AgentProps.vio: Proofs/AgentProps.v Model/Types.vio Model/Side.vio Model/Book.vio Model/Obs.vio Model/Rng.vio Model/Float.vio Model/Env.vio Model/Agents.vio
+Proofs/AgentProps.vos Proofs/AgentProps.vok Proofs/AgentProps.required_vos: Proofs/AgentProps.v Model/Types.vos Model/Side.vos Model/Book.vos Model/Obs.vos Model/Rng.vos Model/Float.vos Model/Env.vos Model/Agents.vos
+Properties/C09.vo Properties/C09.glob Properties/C09.v.beautified Properties/C09.required_vo: Properties/C09.v Model/Types.vo Model/Book.vo Model/Rng.vo Model/Float.vo Model/Env.vo Model/Agents.vo
+Properties/C09.vio: Properties/C09.v Model/Types.vio Model/Book.vio Model/Rng.vio Model/Float.vio Model/Env.vio Model/Agents.vio
+Properties/C09.vos Properties/C09.vok Properties/C09.required_vos: Properties/C09.v Model/Types.vos Model/Book.vos Model/Rng.vos Model/Float.vos Model/Env.vos Model/Agents.vos
+Properties/C16.vo Properties/C16.glob Properties/C16.v.beautified Properties/C16.required_vo: Properties/C16.v Model/Types.vo Model/Side.vo Model/Book.vo Model/Rng.vo Model/Float.vo Model/Env.vo Model/Agents.vo Proofs/AgentProps.vo
+Properties/C16.vio: Properties/C16.v Model/Types.vio Model/Side.vio Model/Book.vio Model/Rng.vio Model/Float.vio Model/Env.vio Model/Agents.vio Proofs/AgentProps.vio
+Properties/C16.vos Properties/C16.vok Properties/C16.required_vos: Properties/C16.v Model/Types.vos Model/Side.vos Model/Book.vos Model/Rng.vos Model/Float.vos Model/Env.vos Model/Agents.vos Proofs/AgentProps.vos
+Properties/C17.vo Properties/C17.glob Properties/C17.v.beautified Properties/C17.required_vo: Properties/C17.v Model/Types.vo Model/Side.vo Model/Book.vo Model/Rng.vo Model/Float.vo Model/Env.vo Model/Agents.vo Proofs/AgentProps.vo
+Properties/C17.vio: Properties/C17.v Model/Types.vio Model/Side.vio Model/Book.vio Model/Rng.vio Model/Float.vio Model/Env.vio Model/Agents.vio Proofs/AgentProps.vio
+Properties/C17.vos Properties/C17.vok Properties/C17.required_vos: Properties/C17.v Model/Types.vos Model/Side.vos Model/Book.vos Model/Rng.vos Model/Float.vos Model/Env.vos Model/Agents.vos Proofs/AgentProps.vos
+Properties/C20.vo Properties/C20.glob Properties/C20.v.beautified Properties/C20.required_vo: Properties/C20.v Generated/MacroShapes.vo Model/Macro.vo
+Properties/C20.vio: Properties/C20.v Generated/MacroShapes.vio Model/Macro.vio
+Properties/C20.vos Properties/C20.vok Properties/C20.required_vos: Properties/C20.v Generated/MacroShapes.vos Model/Macro.vos
